@@ -395,7 +395,7 @@ def rule_verdict(ctx, repo):
               "%d assignments of converged=True" % len(sets), f.W())
     # non-success exits exist: max_iter, NaN, divergence
     t = [src(f.g.data(n)["ast"].test) for n in f.g.nodes() if f.g.data(n)["kind"] == "test"]
-    need = {"max_iter": any("self.config.max_iter" in x and ">" in x for x in t),
+    need = {"max_iter": any("self.config.max_iter" in x and (">" in x or "<" in x) for x in t),
             "nan": any("isnan" in x for x in t)}
     ctx.check(all(need.values()), "C01.verdict", "PFlow.nr_solve/failure-exits", "iteration-limit and NaN exits present",
               "missing failure exit(s): %s" % [k for k, v in need.items() if not v], f.W())
